@@ -19,7 +19,7 @@ def gen_cases(rng, tier, info):
     key_updates = 0
     for j in range(n):
         h = G.History(rng, rng.choice([0, 1, 2]))
-        kind = rng.choice(["intkey", "composite", "strkey", "widerange"])
+        kind = rng.choice(["intkey", "composite", "strkey", "widerange", "pklast", "pkgap", "i32key"])
         t = h.add_table("T", kind=kind)
         cols = h.db.cols_of(t)
         pk = [c for c in cols if c["pk"]]
